@@ -5,6 +5,7 @@ package main
 import (
 	"fmt"
 	"go/token"
+	"go/types"
 
 	"golang.org/x/tools/go/ssa"
 )
@@ -104,6 +105,22 @@ func checkC05(c *Ctx) {
 		c.Check(root.Kind == "extract" && root.Args[0].IsCall("Table.Clone"), "R1", "dealt-in:on-clone", where, "written on the clone", "the dealt-in flag is written on the live table before the open step is known to succeed")
 	}
 	c.Min("R1", "dealt-in flag stores in the open step", n1, 1)
+	// who-may-write the dealt-in flag: open step and continue step (both from the seat
+	// manager's eligibility answer for that same player), false at construction
+	for _, ss := range p.FieldStores("TablePlayerState", "IsParticipated") {
+		if ss.Fn == open {
+			continue
+		}
+		where := p.InstrPos(ss.Instr)
+		if b, isB := ss.Val.ConstBool(); storeIsLocal(ss.Instr) && isB && !b {
+			continue
+		}
+		v := ss.Val.Strip()
+		pl := ss.Addr.Strip().Args[0].Strip()
+		ok := ss.Fn == lc.continueFn && v.Kind == "extract" && v.Name == "0" && v.Args[0].IsCall("SeatManager.IsPlayerActive") &&
+			v.Args[0].Strip().Args[1].Strip().IsField("TablePlayerState", "PlayerID") && v.Args[0].Strip().Args[1].Strip().Args[0].Strip().String() == pl.String()
+		c.Check(ok, "R1", "dealt-in-writer:"+FuncName(ss.Fn), where, "IsParticipated ← IsPlayerActive(same player) in the continue step", "the dealt-in flag is written from "+v.String()+" outside the open/continue steps' eligibility copy")
+	}
 	// error exits return the old table
 	_, _, _, errRets, ab := p.ExitsWithGuards(open)
 	okOld := !ab
@@ -335,6 +352,9 @@ func checkC05(c *Ctx) {
 		c.Check(ok && !wk.Aborted, "R5", "waiting-predicate", p.Pos(f.Pos()), "true only when initialised and not short deck", d)
 	}
 
+	// the waiting arc is OPEN at both ends: (dealer, bb) exclusive, also across the wrap
+	checkWaitingArc(c, smT)
+
 	// the waiting predicate's wrap-around arithmetic (shared rule with C04.R1)
 	checkWrapCounters(c, "R5", func(f *ssa.Function) bool { return inSeatManagerPkg(p, f) }, 2)
 
@@ -417,4 +437,84 @@ func appendedElem(p *Prog, ci ssa.CallInstruction) *Sym {
 		return nil
 	}
 	return elem
+}
+
+// checkWaitingArc (C05.R5): the helper that decides "strictly between dealer and BB":
+// the wrap-around loop runs from dealer+1 up to, but excluding, bb+MaxSeat, and every
+// comparison that involves the target seat is strict (or an equality with the reduced counter).
+func checkWaitingArc(c *Ctx, smT *types.Named) {
+	p := c.P
+	pred := p.Method(smT, "IsPlayerBetweenDealerBB")
+	if pred == nil {
+		c.Bad("R5", "waiting-arc", "-", "waiting predicate not found")
+		return
+	}
+	var arc *ssa.Function
+	for _, ci := range Calls(pred) {
+		if sc := ci.Common().StaticCallee(); sc != nil && inSeatManagerPkg(p, sc) && len(sc.Params) == 4 && sc.Signature.Results().Len() == 1 {
+			arc = sc
+		}
+	}
+	if arc == nil {
+		c.Bad("R5", "waiting-arc", p.Pos(pred.Pos()), "the waiting predicate does not delegate to a (dealer, bb, target) helper")
+		return
+	}
+	dealer, bb, target := arc.Params[1], arc.Params[2], arc.Params[3]
+	where := p.Pos(arc.Pos())
+	isMax := func(s *Sym) bool { return s.Strip().IsField("seatManager", "MaxSeat") }
+	sum := func(s *Sym, a func(*Sym) bool, b func(*Sym) bool) bool {
+		s = s.Strip()
+		if s.Kind != "binop" || s.Name != "+" {
+			return false
+		}
+		return a(s.Args[0]) && b(s.Args[1]) || a(s.Args[1]) && b(s.Args[0])
+	}
+	isP := func(pr *ssa.Parameter) func(*Sym) bool { return func(s *Sym) bool { return symIsParam(s, pr) } }
+	isOne := func(s *Sym) bool { z, ok := s.ConstInt(); return ok && z == 1 }
+	nLoop := 0
+	seen := map[*ssa.Phi]bool{}
+	for _, b := range arc.Blocks {
+		for _, in := range b.Instrs {
+			v, ok := in.(ssa.Value)
+			if !ok {
+				continue
+			}
+			ind := p.induction(v)
+			if ind == nil || seen[ind.Phi] {
+				continue
+			}
+			seen[ind.Phi] = true
+			nLoop++
+			okFirst := sum(ind.First, isP(dealer), isOne)
+			okBound := ind.Bound != nil && ind.Step == 1 && (!ind.Incl && ind.Op == token.LSS && sum(ind.Bound, isP(bb), isMax))
+			c.Check(okFirst && okBound, "R5", "waiting-arc:wrap-loop", p.InstrPos(ind.Phi), "i from dealer+1 while i < bb+MaxSeat", fmt.Sprintf("the wrap-around scan of the waiting predicate does not cover exactly the seats strictly between dealer and big blind (first=%s bound=%v inclusive=%v): the dealer or the big-blind seat itself counts as 'between'", ind.First, ind.Bound, ind.Incl))
+		}
+	}
+	c.Min("R5", "wrap-around loops in the waiting arc helper", nLoop, 1)
+	// comparisons involving the target seat
+	bad := ""
+	nCmp := 0
+	for _, b := range arc.Blocks {
+		for _, in := range b.Instrs {
+			bo, ok := in.(*ssa.BinOp)
+			if !ok {
+				continue
+			}
+			s := p.Sym(bo).Strip()
+			if s.Kind != "binop" {
+				continue
+			}
+			l, r := s.Args[0].Strip(), s.Args[1].Strip()
+			if !symIsParam(l, target) && !symIsParam(r, target) {
+				continue
+			}
+			nCmp++
+			switch s.Name {
+			case "<", ">", "==":
+			default:
+				bad = s.String()
+			}
+		}
+	}
+	c.Check(bad == "" && nCmp >= 3, "R5", "waiting-arc:strict", where, "target compared strictly with dealer and bb", "the waiting predicate compares the target seat non-strictly ("+bad+"): the dealer or big-blind seat itself would count as 'between'")
 }
